@@ -27,8 +27,9 @@
 
     Reading of two clauses.  "Nothing but a connection error precedes the ack": in
     graphql-transport-ws a ping must be answered at any time, so a pong may precede the ack as
-    well (A).  The periodic keep-alive of the write loop (first after 15 s) is not part of the
-    model; in graphql-ws it is started by the first ack since fix 01d68b8 (checks/C08.design.md).
+    well (A).  The periodic keep-alive of the write loop is the label [LTick] (one period elapsed and
+    the write loop took the tick): graphql-transport-ws writes a pong (its heartbeat; allowed at any
+    time), graphql-ws a ka, since fix c3ed4f8 only once the first ack has been queued.
 
     PARTIAL (stated, not proved): "no goroutine serving it remains" is proved for the actor model
     (I: every actor terminates); on the real runtime it is observed by the correspondence check
@@ -104,11 +105,23 @@ Proof. exact ws_no_start_dropped. Qed.
 (** ** E. ping / pong (graphql-transport-ws) *)
 Theorem C08_ws_ping_pong : forall ls id pl,
   closed (fin PTws ls) = false ->
-  snd (step false false PTws (fin PTws ls) (LFrame (Msg TPing id pl))) = [VRecv (Msg TPing id pl); VSend SPong None].
+  snd (step false false false PTws (fin PTws ls) (LFrame (Msg TPing id pl))) = [VRecv (Msg TPing id pl); VSend SPong None].
 Proof. exact ws_ping_pong. Qed.
-(** over a whole run: one pong per ping, in order, none unsolicited; none at all in graphql-ws *)
+(** over a whole run: one pong per ping and one per keep-alive tick, in order, none else; none at all in graphql-ws *)
 Theorem C08_ws_pongs_match_pings : forall (p : proto) ls, chk_pongs p 0 (tr p ls) = true.
 Proof. exact ws_pongs_match_pings. Qed.
+
+(** the write loop's periodic keep-alive ([LTick] anywhere in a run): a pong in
+    graphql-transport-ws, a ka in graphql-ws exactly when an init has been accepted; with (A) — which
+    quantifies over runs with ticks anywhere — never before the first ack *)
+Theorem C08_ws_tick_keepalive : forall (p : proto) ls,
+  closed (fin p ls) = false ->
+  snd (step false false false p (fin p ls) LTick) =
+  VTick :: match p with
+           | PWs => if did_init (fin p ls) then [VSend SKa None] else []
+           | PTws => [VSend SPong None]
+           end.
+Proof. exact ws_tick_keepalive. Qed.
 
 (** ** F. Stop() exactly once *)
 Theorem C08_ws_stop_exactly_once : forall (p : proto) ls n,
@@ -131,11 +144,15 @@ Proof. exact ws_model_meets_spec. Qed.
 
 (** the repaired defects, kept as witnesses: the model of the code before the repair violates the Spec *)
 Theorem C08_ws_ping_refuted_before_fix :
-  exists ls, spec_verdict PTws (trace true false PTws ls) = Some "ping-pong"%string.
+  exists ls, spec_verdict PTws (trace true false false PTws ls) = Some "ping-pong"%string.
 Proof. exact ws_ping_refuted_before_fix. Qed.
 Theorem C08_ws_id_reuse_refuted_before_fix :
-  exists ls, spec_verdict PWs (trace false true PWs ls) = Some "stale-id-after-source-end"%string.
+  exists ls, spec_verdict PWs (trace false true false PWs ls) = Some "stale-id-after-source-end"%string.
 Proof. exact ws_id_reuse_refuted_before_fix. Qed.
+
+Theorem C08_ws_keepalive_refuted_before_fix :
+  exists ls, spec_verdict PWs (trace false false true PWs ls) = Some "ack-not-first"%string.
+Proof. exact ws_keepalive_refuted_before_fix. Qed.
 
 (** ** I. stage 2: shutdown always completes (queue capacity [cap] >= 1 as a parameter) *)
 (** From every reachable configuration that is on its way out (closing has begun, or the client
@@ -186,12 +203,14 @@ Print Assumptions C08_ws_sub_complete_once_then_silent.
 Print Assumptions C08_ws_no_start_dropped.
 Print Assumptions C08_ws_ping_pong.
 Print Assumptions C08_ws_pongs_match_pings.
+Print Assumptions C08_ws_tick_keepalive.
 Print Assumptions C08_ws_stop_exactly_once.
 Print Assumptions C08_ws_stop_only_started.
 Print Assumptions C08_ws_deregistered.
 Print Assumptions C08_ws_model_meets_spec.
 Print Assumptions C08_ws_ping_refuted_before_fix.
 Print Assumptions C08_ws_id_reuse_refuted_before_fix.
+Print Assumptions C08_ws_keepalive_refuted_before_fix.
 Print Assumptions C08_ws_quiescent.
 Print Assumptions C08_ws_quiescent_run_exists.
 Print Assumptions C08_ws_actors_stop_at_most_once.
